@@ -486,3 +486,19 @@ def scan_assumptions(units):
     if files:
         out.append('literal axioms: one per float literal in the extracted bodies (exact rational value of the IEEE double), generated mechanically')
     return out
+
+
+# ---- dependency units: functions of other properties' units whose contracts a property is stated over ------------------------------
+PW_EV = ['Evaluate for Piecewise<T> :: evaluate', 'Evaluate for Segment<T> :: evaluate']
+DEP_NOTE = ('dependency contracts: the units/functions listed under verus_deps belong to other properties; this property is stated over their contracts '
+            '(e.g. "what direct evaluation returns"), so their contract-level failures are reported here as well')
+PROPS['C03']['verus_deps'] = {'u_pwsel': PW_EV}
+PROPS['C12']['verus_deps'] = {'u_pwsel': PW_EV}
+PROPS['C13']['verus_deps'] = {'u_pwsel': PW_EV}
+PROPS['C06']['verus_deps'] = {'u_pwsel': PW_EV, 'u_polyeval': ['Evaluate for Poly1 :: evaluate'],
+                              'u_polycalc': ['HasIntegral for Poly0 :: indefinite', 'Translate for Poly1 :: translate']}
+PROPS['C04']['verus_deps'] = {'u_pwsel': PW_EV, 'u_polyeval': ['Evaluate for Poly3 :: evaluate']}
+PROPS['C05']['verus_deps'] = {'u_pwsel': PW_EV, 'u_polyeval': ['Evaluate for Poly3 :: evaluate']}
+PROPS['C11']['verus_deps'] = {'u_polycalc': ['HasIntegral for', 'Translate for'], 'u_log': ['HasIntegral for', 'Translate for', 'Evaluate for IntOfLog']}
+for _p in ('C03', 'C12', 'C13', 'C06', 'C04', 'C05', 'C11'):
+    PROPS[_p]['assumptions'] = PROPS[_p]['assumptions'] + [DEP_NOTE + ': ' + '; '.join(f"{u}: {', '.join(v)}" for u, v in PROPS[_p]['verus_deps'].items())]
